@@ -27,6 +27,11 @@ Proof. vm_compute. reflexivity. Qed.
 (* isLocalhost also treats unspecified addresses as the local machine *)
 Lemma ob_localhost_checks_unspecified : localhost_checks_unspecified = true.
 Proof. vm_compute. reflexivity. Qed.
+(* ... cuts a zone off before parsing the literal, and judges the name the transport connects to *)
+Lemma ob_localhost_strips_zone : localhost_strips_zone = true.
+Proof. vm_compute. reflexivity. Qed.
+Lemma ob_localhost_maps_idna : localhost_maps_idna = true /\ deny_matches_ascii_form = true.
+Proof. vm_compute. split; reflexivity. Qed.
 Lemma ob_seed_has_localhost : existsb (str_eqb (b "localhost")) localhost_seed = true.
 Proof. vm_compute. reflexivity. Qed.
 
